@@ -278,6 +278,8 @@ pub struct Cluster {
     pub client_port: u16,
     /// port the client has been pointed at (== server_port unless via_tap)
     pub link_port: u16,
+    /// the listener of the tap-to-be (bound before the client was configured with its port)
+    pub tap_listener: Option<std::net::TcpListener>,
     pub keep: bool,
 }
 
@@ -334,7 +336,12 @@ impl Cluster {
         let cred = spec.cred();
         let server_port = free_port();
         let client_port = free_port();
-        let link_port = if spec.via_tap { free_port() } else { server_port };
+        let (tap_listener, link_port) = if spec.via_tap {
+            let (l, p) = super::tap::Tap::reserve();
+            (Some(l), p)
+        } else {
+            (None, server_port)
+        };
         let sdoc = json!([server_entry(spec, &cred, server_port)]);
         let cdoc = client_doc(spec, &cred, client_port, link_port);
         let sp = dir.join("server.json");
@@ -351,7 +358,7 @@ impl Cluster {
             let _ = std::fs::remove_dir_all(&dir);
             return Err(e);
         }
-        Ok(Cluster { spec: spec.clone(), cred, dir, server, client, server_port, client_port, link_port, keep: false })
+        Ok(Cluster { spec: spec.clone(), cred, dir, server, client, server_port, client_port, link_port, tap_listener, keep: false })
     }
 
     /// Err(description) if a process has exited or panicked.
